@@ -40,7 +40,7 @@ type cf struct {
 type cfCtx struct {
 	loop, sw, shadow bool
 	core             bool // core alphabet only
-	mini             int  // 0: no further restriction; 1: {M, R, if, if/else}; 2: {M, R, B, C, if/else, loop+continuing}
+	mini             int  // 0: no further restriction; 1: {M, R, if, if/else}; 2: {M, R, B, C, if/else, loop+continuing}; 3: {M, B, C, plain loop, single-clause switch}
 }
 
 func (c cfCtx) key(n int) int {
@@ -49,7 +49,7 @@ func (c cfCtx) key(n int) int {
 	k = k*2 + b2i(c.sw)
 	k = k*2 + b2i(c.shadow)
 	k = k*2 + b2i(c.core)
-	k = k*3 + c.mini
+	k = k*4 + c.mini
 	return k
 }
 func b2i(b bool) int {
@@ -156,6 +156,25 @@ func (e *cfEnum) stmtsOf(a int, c cfCtx) []*cf {
 	var out []*cf
 	inner := cfCtx{loop: c.loop, sw: c.sw, shadow: true, core: c.core, mini: c.mini}
 	if c.mini != 0 {
+		if c.mini == 3 {
+			if a == 1 {
+				out = append(out, leafMark)
+				if c.loop || c.sw {
+					out = append(out, leafBreak)
+				}
+				if c.loop {
+					out = append(out, leafContinue)
+				}
+			}
+			if a >= 1 {
+				swc := cfCtx{loop: c.loop, sw: true, shadow: true, core: c.core, mini: 3}
+				out = append(out, e.compound(cfSwitch, 4, a-1, []cfCtx{swc})...)
+				lc := cfCtx{loop: true, shadow: true, core: c.core, mini: 3}
+				out = append(out, e.compound(cfLoop, 0, a-1, []cfCtx{lc})...)
+			}
+			e.stmts[k] = out
+			return out
+		}
 		if a == 1 {
 			out = append(out, leafMark, leafReturn)
 			if c.mini == 2 && c.loop {
@@ -243,7 +262,8 @@ func F2Trees(k int, core bool) [][]*cf {
 }
 
 // F2TreesMini returns all top-level statement lists with 1..k nodes over a reduced alphabet
-// (mini 1: marker, return, if, if/else; mini 2: marker, return, break, continue, if/else, loop with continuing).
+// (mini 1: marker, return, if, if/else; mini 2: marker, return, break, continue, if/else, loop with continuing;
+// mini 3: marker, break, continue, plain loop, single-clause switch).
 func F2TreesMini(k, mini int) [][]*cf {
 	cfE.mu.Lock()
 	defer cfE.mu.Unlock()
@@ -267,6 +287,9 @@ type f2b struct {
 	// optional overrides used by F2L (function-local accumulators)
 	markAcc func(id uint32) Expr // accumulator lvalue for the marker with this id
 	retSeq  func() []Stmt        // statements that make up a `return`
+	// loopMarks: every loop body starts (after its bound check) with an implicit marker, so that the number of
+	// iterations begun is observable without spending node budget on it
+	loopMarks bool
 }
 
 func (b *f2b) id() uint32 { b.nextID++; return b.nextID }
@@ -372,6 +395,8 @@ func (b *f2b) stmt(s *cf) []Stmt {
 			sw.Cases = []SwCase{{Sels: []Expr{lit(0)}, Default: true, DefaultPos: 1, Body: bodies[0]}, {Sels: []Expr{lit(3)}, Body: bodies[1]}}
 		case 3:
 			sw.Cases = []SwCase{{Sels: []Expr{lit(1)}, Body: bodies[0]}, {Sels: []Expr{lit(2)}, Body: bodies[1]}, {Default: true, Body: bodies[2]}}
+		case 4: // a single clause: `switch x { default: { ... } }`
+			sw.Cases = []SwCase{{Default: true, Body: bodies[0]}}
 		}
 		return []Stmt{sw}
 	case cfLoop:
@@ -380,6 +405,9 @@ func (b *f2b) stmt(s *cf) []Stmt {
 		kv := V(k, TU32)
 		pre := &VarDecl{Kind: "var", Name: k, Ty: TU32, Init: LitU(0)}
 		body := []Stmt{&IncDec{LHS: kv, Inc: true}, &If{Cond: &Bin{Op: ">", L: kv, R: LitU(2), Ty: TBool}, Then: []Stmt{&Break{}}}}
+		if b.loopMarks {
+			body = append(body, b.mark())
+		}
 		body = append(body, b.list(s.kids[0])...)
 		lp := &Loop{Body: body}
 		if s.variant&1 != 0 {
@@ -446,7 +474,9 @@ func cfString(l []*cf) string {
 const f2Inputs = 16
 
 // BuildF2 materialises one tree in one position.
-func BuildF2(tree []*cf, pos string) *Case {
+func BuildF2(tree []*cf, pos string) *Case { return buildF2(tree, pos, false) }
+
+func buildF2(tree []*cf, pos string, loopMarks bool) *Case {
 	m := &Module{}
 	inT := Array(Vec(U32, 2), 0)
 	outT := Array(TU32, 0)
@@ -456,7 +486,7 @@ func BuildF2(tree []*cf, pos string) *Case {
 		Global{Name: "acc", Space: "private", Ty: TU32},
 	)
 	gi := L("gi", TU32)
-	b := &f2b{pos: pos, nextID: 0}
+	b := &f2b{pos: pos, nextID: 0, loopMarks: loopMarks}
 	accPriv := func() Expr { return V("acc", TU32) }
 	accOut := func() Expr { return Idx(V("out", outT), gi) }
 	// helper h: touches acc (private) in all positions
@@ -528,6 +558,17 @@ func BuildF2(tree []*cf, pos string) *Case {
 
 func b2mark(acc func() Expr, id uint32) Stmt {
 	return &Assign{LHS: acc(), Op: "=", RHS: &Bin{Op: "+", L: &Bin{Op: "*", L: acc(), R: LitU(31), Ty: TU32}, R: LitU(id), Ty: TU32}}
+}
+
+// F2Mini: F2 (three positions) over a reduced alphabet (see F2TreesMini) with a larger node budget.
+func F2Mini(k, mini int) *Family {
+	trees := F2TreesMini(k, mini)
+	name := fmt.Sprintf("F2m%dk%d", mini, k)
+	return &Family{Name: name, Count: len(trees) * len(f2Positions), At: func(i int) *Case {
+		c := buildF2(trees[i/len(f2Positions)], f2Positions[i%len(f2Positions)], mini == 3)
+		c.Family, c.Index = name, i
+		return c
+	}}
 }
 
 // F2 returns the control-flow family with node budget k (core alphabet if core).
